@@ -426,6 +426,7 @@ def run(F, R, ctx):
                "%s (owner-only) is also called from %s without the owner test" % (fast, ", ".join(lib.short_name(c) for c in others)),
                fn.loc(), sample=True)
     retry_rule(F, R)
+    queued_rule(F, R)
 
 
 RETRY_PURE = re.compile(
@@ -492,3 +493,38 @@ def retry_rule(F, R):
 def n_in(fn, c):
     cs = [i for i, b in fn.calls() if re.search(r"\{impl SharedPacked\}::compare_exchange$", b["callee"])]
     return cs.index(c) + 1
+
+
+def queued_rule(F, R):
+    R.rule("C05.q", "an object that is queued for its owner is not handed over by the owner's fast paths: the queue holds a plain "
+                    "pointer (no count) until the owner's next explicit merge, so RcBox::fast_decrement publishes `merged` (its "
+                    "compare-exchange) and BiasedRc::try_unwrap_internal_same_thread frees the box only on the not-queued side "
+                    "of a test of Packed::get_queued (re-tested on every retry of the compare-exchange loop). nc: once merged, "
+                    "any thread dropping the last reference frees the box while the owner's queue still points at it — the next "
+                    "explicit merge reads and writes freed memory")
+    for rx, target_rx, what in (
+            (r"^steel_rc::\{impl RcBox<T>\}::fast_decrement$", r"\{impl SharedPacked\}::compare_exchange$", "publishes merged"),
+            (r"^steel_rc::\{impl BiasedRc<T>\}::try_unwrap_internal_same_thread$", r"\{impl RcBox<T>\}::dealloc$", "frees the box")):
+        fn = F.one(rx)
+        targets = fn.call_blocks(target_rx, wrappers=True)
+        if not targets:
+            raise CheckError("anchor lost: %s no longer %s" % (fn.short(), what))
+        tests = fn.call_blocks(r"\{impl Packed\}::get_queued$")
+        ok = bool(tests)
+        for t in targets:
+            reach_ok = False
+            for q in tests:
+                br = lib.bool_branch(fn, q)
+                if not br or br[0] is None:
+                    continue
+                # the queued (true) side must not lead to the target without passing the test again
+                bad = fn.reachable_from([br[0]], avoid=set(tests))
+                # every path from the entry to the target passes a test
+                free = fn.reachable_from([0], avoid=set(tests))
+                if t not in bad and t not in free:
+                    reach_ok = True
+            ok = ok and reach_ok
+        R.inst("C05.q", "%s %s only while the object is not queued" % (fn.short(), what), ok,
+               "%s %s without testing the queued flag of the shared word first (or on its queued side): an object whose "
+               "pointer is parked in the owner's queue becomes freeable by other threads, and the owner's next explicit merge "
+               "touches freed memory" % (fn.short(), what), fn.loc(), sample=True)
